@@ -114,7 +114,7 @@ func c13Case(side string, interval time.Duration, threshold int, pattern string,
 		sc := bufio.NewScanner(peerRWC)
 		sc.Buffer(make([]byte, 1<<20), 1<<20)
 		write := func(s string) { io.WriteString(peerRWC, s+"\n") }
-		if side == "server" && pendingKind != "no-initialize" {
+		if side == "server" && pendingKind != "no-initialize" && pendingKind != "restored-state" && pendingKind != "restored-empty-state" {
 			write(`{"jsonrpc":"2.0","id":"init","method":"initialize","params":{"protocolVersion":"2025-06-18","capabilities":{},"clientInfo":{"name":"peer","version":"1"}}}`)
 		}
 		for sc.Scan() {
@@ -169,7 +169,17 @@ func c13Case(side string, interval time.Duration, threshold int, pattern string,
 			return nil, hctx.Err()
 		})
 		cctx, release := context.WithCancel(ctx)
-		ss, err := s.Connect(cctx, sessT, nil)
+		var sopts *ServerSessionOptions
+		switch pendingKind {
+		case "restored-state":
+			// a session restored from saved state (a server resuming after a restart): live from the start
+			sopts = &ServerSessionOptions{State: &ServerSessionState{
+				InitializeParams:  &InitializeParams{ProtocolVersion: "2025-06-18", ClientInfo: &Implementation{Name: "peer", Version: "1"}, Capabilities: &ClientCapabilities{}},
+				InitializedParams: &InitializedParams{}, LogLevel: "info"}}
+		case "restored-empty-state":
+			sopts = &ServerSessionOptions{State: &ServerSessionState{}}
+		}
+		ss, err := s.Connect(cctx, sessT, sopts)
 		if err != nil {
 			release()
 			return obs, "connect: " + err.Error(), "c13 connect-failed"
@@ -179,7 +189,7 @@ func c13Case(side string, interval time.Duration, threshold int, pattern string,
 		}
 		defer release()
 		sess = ss
-		if pendingKind != "no-initialize" {
+		if pendingKind != "no-initialize" && sopts == nil {
 			<-handshake
 		}
 	} else {
@@ -545,7 +555,7 @@ func TestVerifC13(t *testing.T) {
 	// (server+pending-no-initialize / no-initialized: the peer has connected but never sends initialize,
 	// or never follows it with notifications/initialized - a peer that hangs or dies during the handshake
 	// is a peer that stops answering like any other)
-	for _, side := range []string{"server", "client", "server+pending-call", "client+pending-call", "server+pending-handler", "server+pending-no-initialize", "server+pending-no-initialized", "client+pending-connect-ctx-released", "server+pending-connect-ctx-released"} {
+	for _, side := range []string{"server", "client", "server+pending-call", "client+pending-call", "server+pending-handler", "server+pending-no-initialize", "server+pending-no-initialized", "client+pending-connect-ctx-released", "server+pending-connect-ctx-released", "server+pending-restored-state", "server+pending-restored-empty-state"} {
 		pendingKind := ""
 		if i := strings.Index(side, "+pending-"); i >= 0 {
 			pendingKind = side[i+len("+pending-"):]
